@@ -29,6 +29,7 @@ type kTok struct {
 	cancelled bool
 	recorded  bool
 	inst      *instance
+	first     bool // first start of a record constructed for an absent key: no predecessor to wait for
 }
 
 type kTimer struct {
@@ -41,21 +42,22 @@ type kTimer struct {
 }
 
 type kRec struct {
-	id      int // constructor call index
-	key     int
-	data    int
-	beh     string
-	status  int
-	err     error
-	tok     *kTok
-	hasCh   bool
-	present bool // routines[key] == this record
-	inc     int  // incarnation of the key this record belongs to
-	retry   *kTimer
-	remove  *kTimer
-	boIdx   int
-	nexts   int // expected NextBackOff calls
-	resets  int // expected Reset calls
+	id       int // constructor call index
+	key      int
+	data     int
+	beh      string
+	status   int
+	err      error
+	tok      *kTok
+	hasCh    bool
+	present  bool // routines[key] == this record
+	inc      int  // incarnation of the key this record belongs to
+	retry    *kTimer
+	remove   *kTimer
+	boIdx    int
+	nexts    int  // expected NextBackOff calls
+	resets   int  // expected Reset calls
+	viaReset bool // constructed by ResetRoutine (its first instance waits for the replaced record's)
 }
 
 type kModel struct {
@@ -167,7 +169,7 @@ func (m *kModel) start(r *kRec, force bool) bool {
 	}
 	r.status = stRunning
 	r.err = nil
-	t := &kTok{id: len(m.toks), rec: r, ctxID: m.ctxID}
+	t := &kTok{id: len(m.toks), rec: r, ctxID: m.ctxID, first: r.tok == nil && !r.viaReset}
 	t.cancelled = m.dead[m.ctxID] // started under a dead root context: never enters the routine
 	m.toks = append(m.toks, t)
 	m.unbound[r.key] = append(m.unbound[r.key], t)
@@ -308,6 +310,7 @@ func (m *kModel) ResetRoutine(key int, matched bool) (bool, bool) {
 	// the old record's timers keep running but find themselves replaced
 	nr := m.construct(key)
 	nr.inc = r.inc
+	nr.viaReset = true
 	if m.ctxID != 0 {
 		m.start(nr, false)
 	} else {
